@@ -35,4 +35,10 @@ CHECKS = {
              "Trusted: the 15-line reference splitter and the scripted io.Reader. Sampling beyond the exhaustive scope.",
              q={"checks": 3000, "shards": 1, "timeout": 300},
              t={"checks": 30000, "shards": 16, "timeout": 1500}),
+    "C21": P("pure", "TestC21",
+             "rapid generated declarations + boundary-biased observation sequences vs bucket model; compiled declaration, datum API, program lines and Prometheus export",
+             "Generated histogram declarations are compiled, observations at/around every boundary (plus NaN, Inf, negatives) are fed through the API and through program lines, and per-bucket counts, count, sum, the set of upper bounds and the parsed Prometheus exposition are compared with a 10-line bucket model.",
+             "Trusted: the bucket model, expfmt.TextParser. Sampling.",
+             q={"checks": 3000, "shards": 1, "timeout": 300},
+             t={"checks": 30000, "shards": 16, "timeout": 1500}),
 }
